@@ -717,11 +717,11 @@ func runC12(k *kernel.K) {
 	if len(accepted) > 1 {
 		k.Probe("config_replaced")
 	}
-	// Second phase, a third of the runs: two administrators post a valid configuration each at the
+	// Second phase, half of the runs: two administrators post a valid configuration each at the
 	// same time (two connections; the tape parks them before the lock acquisitions of the
 	// configuration holder, seam R8). Whichever wins, it "replaces completely": an exchange sent
 	// after both were answered is shaped, in its request and in its response, by one of the two.
-	if !k.Failed() && w.Chance(1, 3) && traffic.Alive() {
+	if !k.Failed() && w.Chance(1, 2) && traffic.Alive() {
 		k.Probe("two_configurations_posted_at_once")
 		var pair []*c12Conf
 		var admins []*Client
